@@ -303,8 +303,7 @@ func (r *checkRun) run() int {
 			// date with respect to the code (a rename is enough). Nothing is decided about the property by that.
 			fmt.Printf("UNDECIDED %s: the contract is out of date with the code (%s); nothing was proved or refuted for this function\n", fc.Key, rep.Unsupported)
 			r.staleContracts = append(r.staleContracts, fc.Key+": "+rep.Unsupported)
-			rep.Unsupported = ""
-			rep.Obligations = nil
+			rep.Unsupported = "" // obligations generated before the unreadable clause stay: each is about the real code
 		}
 		if rep.Unsupported != "" {
 			// the function (as it is now) is outside what the generator can turn into obligations, or its contract can
